@@ -31,7 +31,7 @@ def run(ctx):
     ctx.rule("C15.guard", "A3 lockset rule on the value of all five register-like classes (reads under S or X, "
              "writes under X of the object's own mutex)", floor=60)
     for cls, names in OPS.items():
-        ctx.step(check_guarded_fields, ctx, "C15.guard", cls, only_functions=names + ("lock_shared",))
+        ctx.step(check_guarded_fields, ctx, "C15.guard", cls, only_functions=names + ("lock_shared",), assume_enabled=False)
     ctx.step(onecs, ctx)
     ctx.step(flow_rules, ctx)
     ctx.step(common.witnesses, ctx, "C15.witness", ["C15"])
@@ -60,12 +60,21 @@ def onecs(ctx):
             acq = [(pos, key, v, kind, st) for pos, key, v, kind, st in la.acquire_events
                    if v.mutex == "this.m_mutex"]
             site = f.where
+            if not acq:
+                # a pure forwarder (operator= calling store()): the one critical section is the callee's
+                fw = [st for st in f.stmts.values() if st["k"] == "CXXMemberCallExpr" and path(f, f.s(st["obj"])) == "this"
+                      and (fb.callee_fn(f, st) is not None) and fb.callee_fn(f, st).rec == cls
+                      and fb.callee_fn(f, st).name in names]
+                touches = [st for st in field_refs(f, cls) if st["m"]["name"] == "m_obj"]
+                ok = len(fw) == 1 and not touches
+                ctx.ob(rid, ok, site, "%s forwards to exactly one register operation and touches nothing itself" % f.name,
+                       "" if ok else "no acquisition of m_mutex and %d forwarded call(s), %d direct access(es)" % (len(fw), len(touches)),
+                       fn=f.label, inst=f.qname)
+                continue
             ok = len(acq) == 1 and acq[0][3] is True
             ctx.ob(rid, ok, site, "%s acquires m_mutex exactly once, blocking" % f.name,
                    "" if ok else "%d acquisition(s): %s" % (len(acq), [(f.loc(a[4]), a[3]) for a in acq]),
                    fn=f.label, inst=f.qname)
-            if not acq:
-                continue
             if f.name != "load" and not _is_conv(f):
                 okx = all(a[2].mode == "X" for a in acq)
                 ctx.ob(rid, okx, site, "%s (a writing operation) holds m_mutex exclusively" % f.name,
